@@ -13,6 +13,7 @@ RenderFails(e) ==
   \cup (IF inRange /\ e.res # "ok" THEN {"valid-r-s-not-rendered"} ELSE {})
   \cup (IF inRange /\ e.res = "ok" /\ e.out # RenderRS(e.r, e.s, n) THEN {"rendering-is-not-fixed-width-r-then-s"} ELSE {})
   \cup (IF ((e.rneg /\ e.r # <<>>) \/ Len(e.r) > n) /\ e.res = "ok" THEN {"out-of-range-r-rendered"} ELSE {})
+  \cup (IF e.res # "ok" /\ e.out # <<>> THEN {"bytes-returned-together-with-an-error"} ELSE {})
 NativeFails(e) ==
   LET n == OrderBytes(e.curve) IN
   (IF e.res # "ok" THEN {"signing-fails-" \o e.res} ELSE
@@ -26,6 +27,8 @@ AcceptFails(e) ==
   \cup (IF e.sig = exact /\ e.res # "ok" THEN {"exact-form-rejected"} ELSE {})
   \cup (IF e.sig # exact /\ e.res = "ok" THEN {"other-rendering-accepted"} ELSE {})
   \cup (IF e.sig # exact /\ e.res \notin {"ok", "ErrVerification"} THEN {"other-rendering-not-reported-as-verification-error"} ELSE {})
+  \cup (IF e.sig = exact /\ e.resd \notin {"ok", "n/a"} THEN {"exact-form-rejected-by-VerifyDigest"} ELSE {})
+  \cup (IF e.sig # exact /\ e.resd = "ok" THEN {"other-rendering-accepted-by-VerifyDigest"} ELSE {})
 Fails(e) == CASE e.op = "ecdsa-render" -> RenderFails(e) [] e.op = "ecdsa-native" -> NativeFails(e) [] e.op = "ecdsa-accept" -> AcceptFails(e)
 TInit == l = 1 /\ KitInit
 TNext == /\ l <= Len(Tr) /\ l' = l + 1
